@@ -46,10 +46,24 @@ def cases(rng, tier, X):
     for k in range(40 if tier == 'quick' else 4000):
         u = F.universal(rng, nif=2, with_glob_changes=False)      # 15 % of them: both contexts report the same hardware address
         head = [o for o in u if o.startswith(('iface', 'glob'))]
-        body = [o for o in u if o.startswith('rx ')]
+        # the merged history keeps the attribute changes of each interface, the clock steps and the frames one interface's
+        # thread handles while the other one sleeps inside the core (`nest`); each solo history is that interface's part of it
+        body = [o for o in u if o.startswith(('rx ', 'set ', 'nest ', 'clock '))]
+        if not any(o.startswith('nest ') for o in body) and rng.random() < 0.5:
+            body = F.with_nesting(rng, body)
+
+        def solo(i):
+            s = []
+            for o in body:
+                w = o.split()
+                if w[0] in ('rx', 'set') and w[1] == str(i):
+                    s.append(o)
+                elif w[0] == 'nest' and w[1] == str(i):
+                    s.append('rx ' + ' '.join(w[1:-1]))
+            return s
         out.append(('u%d_merged' % k, head + body))
-        out.append(('u%d_solo0' % k, head + [o for o in body if o.startswith('rx 0 ')]))
-        out.append(('u%d_solo1' % k, head + [o for o in body if o.startswith('rx 1 ')]))
+        out.append(('u%d_solo0' % k, head + solo(0)))
+        out.append(('u%d_solo1' % k, head + solo(1)))
     # resource cross-talk: interface 0 holds close to the cap of unreported observations while interface 1 records and reports its own
     for k in range(2 if tier == 'quick' else 40):
         head = [F.iface_line(0, mac=F.OWN, mtu=1500), F.iface_line(1, mac=F.OWN2, mtu=1500), F.glob_line()]
